@@ -476,6 +476,19 @@ def run(rep, tier):
     c10.clause_container_carry(f3, rep, ('::sse::',))
     c10.clause_escaped_bits(f1, rep, tier)
     c10.clause_escaped_bits(f3, rep, tier)
+    # both string decoders agree with one reference decoder on every enumerated body, hence with each other (shared with C03 / C05)
+    from .. import strdecode
+    for fx in (f1, f3):
+        try:
+            strdecode.clause(fx, rep, 'quick')
+        except AnalysisBroken as ex:
+            rep.broken.append(str(ex))
+    from .. import scaneval
+    for fx in (f1, f3):
+        try:
+            scaneval.clause(fx, rep, 'quick')       # both skippers agree with one reference on every enumerated text
+        except AnalysisBroken as ex:
+            rep.broken.append(str(ex))
     rep.trust('clang 14 front end', 'Intel semantics of the SSE compare / movemask intrinsics', 'simd wrapper contracts (== and unsigned <= followed by to_bitmask)')
     rep.assumptions += [
         'decides structural parity of the three x86 configurations; in the thorough tier every other property re-runs its rules on K3 (static SSE) and K4 (dynamic dispatch)',
